@@ -255,6 +255,24 @@ class Normaliser:
             else:
                 n = {m: c / dc for m, c in n.items()}
                 d = {dm: Fraction(1)}
+        else:
+            # monomial content common to every monomial of n and of d
+            common = None
+            for m in list(n) + list(d):
+                mm = dict(m)
+                common = mm if common is None else {a: min(k, mm[a]) for a, k in common.items() if a in mm}
+                if not common:
+                    break
+            if common:
+                def strip2(m):
+                    mm = dict(m)
+                    for a, k in common.items():
+                        mm[a] -= k
+                        if not mm[a]:
+                            del mm[a]
+                    return tuple(sorted(mm.items()))
+                n = {strip2(m): c for m, c in n.items()}
+                d = {strip2(m): c for m, c in d.items()}
         return (n, d)
 
     # ------------------------------------------------------------------
